@@ -194,6 +194,35 @@ def check_class(P, R, clsname):
             continue
         ks, _c = keys_of(cand[-1][1], cand[-1][2])
         R.check(bool(ks), "SCHEMA.S7", rd.key, f"legacy arm restores {a}", f"from {sorted(ks)}", f"legacy-format arm gives {a} a value that does not come from the file")
+    # ---- S9: per-component groups of the legacy format are read in index order (the weights are index-ordered) ------
+    if clsname == "GMMMachine" and leg:
+        fparam = rd.value_params[0] if rd.value_params else "hdf5"
+        n_loops = 0
+        for st in leg:
+            for lp in ast.walk(st):
+                gens = []
+                if isinstance(lp, ast.For):
+                    gens = [(lp.target, lp.iter, lp.body)]
+                elif isinstance(lp, (ast.ListComp, ast.GeneratorExp, ast.DictComp, ast.SetComp)):
+                    gens = [(g.target, g.iter, [lp]) for g in lp.generators]
+                for tgt, it, body in gens:
+                    it_src = src(it)
+                    by_name = any(isinstance(x, ast.Call) and isinstance(x.func, ast.Attribute) and x.func.attr in ("items", "keys", "values") for x in ast.walk(it)) or (isinstance(it, ast.Name) and it.id == fparam)
+                    reads_groups = any(isinstance(x, ast.Constant) and isinstance(x.value, str) and "m_gaussians" in x.value for b in body for x in ast.walk(b)) or any(isinstance(x, ast.Constant) and isinstance(x.value, str) and "m_gaussians" in x.value for x in ast.walk(it))
+                    if not (reads_groups or by_name):
+                        continue
+                    n_loops += 1
+                    if by_name:
+                        R.violation("SCHEMA.S9", rd.key, f"for ... in {it_src[:50]}", "the per-component groups of the legacy file are visited in the file's name order (m_gaussians10 sorts before m_gaussians2) while the weights are in index order: with more than ten components means and variances are attached to the wrong weights", getattr(lp, "lineno", None))
+                        continue
+                    is_range = isinstance(it, ast.Call) and isinstance(it.func, ast.Name) and it.func.id == "range"
+                    lv = {x.id for x in ast.walk(tgt) if isinstance(x, ast.Name)}
+                    keyed = any(isinstance(x, ast.Subscript) and isinstance(x.value, ast.Name) and x.value.id == fparam and (lv & {y.id for y in ast.walk(x.slice) if isinstance(y, ast.Name)}) for b in body for x in ast.walk(b))
+                    if is_range and keyed:
+                        R.ok("SCHEMA.S9", rd.key, f"for {src(tgt)} in {it_src[:40]}: {fparam}[f'm_gaussians{{{src(tgt)}}}']", "groups addressed by component index")
+                    else:
+                        R.undecided("SCHEMA.S9", rd.key, f"for {src(tgt)} in {it_src[:40]}", "the order in which the legacy per-component groups are read is not recognised")
+        R.floor("SCHEMA.S9 legacy component loops", n_loops, 1)
     # both arms return the object they built
     for r in [n for n in walk_no_nested(rd.node) if isinstance(n, ast.Return)]:
         R.check(isinstance(r.value, ast.Name) and r.value.id in (obj, lobj), "SCHEMA.ret", rd.key, f"return {src(r.value) if r.value else None}", "returns the object built", "reader does not return the object it restored")
